@@ -449,8 +449,68 @@ func checkC10(e *Engine, r *Report) {
 		})
 		cacheT := e.Named(pkgCA, "cache")
 		cst := cacheT.Underlying().(*types.Struct)
+		// what each snapshot field is filled from: the same-named cache field, or a fresh map that a
+		// loop over exactly that cache field populates (an empty or partial map would silently drop entries)
+		var inits map[*types.Var]ssa.Value
+		if al := allocOfType(snap, sn); al != nil {
+			inits = structInitStores(snap, al)
+		}
+		filledFromRange := func(m ssa.Value, sf, cf *types.Var) bool {
+			ok := false
+			AllInstrs(snap, func(in ssa.Instruction) {
+				mu, isMU := in.(*ssa.MapUpdate)
+				if !isMU {
+					return
+				}
+				hit := false
+				if g, _ := loadedField(mu.Map); g == sf {
+					hit = true
+				}
+				Origins(mu.Map, func(v ssa.Value) bool {
+					if v == m {
+						hit = true
+					}
+					return hit
+				})
+				if !hit {
+					return
+				}
+				// the update sits in the body of a range over cache.<field> and stores the ranged value
+				Origins(mu.Value, func(v ssa.Value) bool {
+					if ex, isEx := v.(*ssa.Extract); isEx {
+						if nx, isNx := ex.Tuple.(*ssa.Next); isNx {
+							if rg, isRg := nx.Iter.(*ssa.Range); isRg {
+								if g, _ := loadedField(rg.X); g == cf {
+									ok = true
+								}
+							}
+						}
+					}
+					return ok
+				})
+			})
+			return ok
+		}
 		for i := 0; i < st.NumFields(); i++ {
 			f := st.Field(i)
+			if f.Name() != "Version" {
+				var cf *types.Var
+				for j := 0; j < cst.NumFields(); j++ {
+					if cst.Field(j).Name() == f.Name() {
+						cf = cst.Field(j)
+					}
+				}
+				okSrc, why := false, "no same-named cache field"
+				if v := inits[f]; v != nil && cf != nil {
+					why = "neither cache." + f.Name() + " itself nor a map populated from a range over it"
+					if g, _ := loadedField(v); g == cf {
+						okSrc = true
+					} else if _, isMk := v.(*ssa.MakeMap); isMk && filledFromRange(v, f, cf) {
+						okSrc = true
+					}
+				}
+				r.Check("R9:snapshot-source#"+f.Name(), "R9 field coverage", "Snapshot fills snapshot."+f.Name()+" from cache."+f.Name()+" (the field itself, or a map populated by ranging over it), so entries not touched since Restore are carried over", e.Pos(snap.Pos()), snap, okSrc, why, true)
+			}
 			r.Check("R9:snapshot-filled#"+f.Name(), "R9 field coverage", "Snapshot fills snapshot."+f.Name(), e.Pos(snap.Pos()), snap, filled[f], "", true)
 			r.Check("R9:snapshot-restored#"+f.Name(), "R9 field coverage", "Restore reads snapshot."+f.Name()+" back", e.Pos(restore.Pos()), restore, restored[f], "", true)
 			if f.Name() == "Version" {
